@@ -383,6 +383,14 @@ def verify(contract, max_paths=None):
             if not canary_done:
                 canary_done = True
                 r = sat_check(ctx.pc)
+                if r == 'unknown':
+                    # quantified preconditions: look for a small witness instead
+                    try:
+                        sm = contract.small(inp)
+                    except Exception:
+                        sm = None
+                    if sm is not None:
+                        r = sat_check(list(ctx.pc) + [sm], 20000)
                 res.canary = r     # must be 'sat': the precondition is satisfiable
             owner = I.classref(mod, cls) if cls is not None and cls is not node else None
             fn = FuncRef(mod, node, owner=owner, qual=qual)
